@@ -609,6 +609,18 @@ func (x *Exec) concat(a, b Term, env *Env) Term {
 	es := x.W.SeqElem(a.Sort)
 	arr := x.W.Fresh("cat", ArraySort(SInt, es))
 	la, lb := x.W.SeqLen(a), x.W.SeqLen(b)
+	if x.unroll > 0 {
+		var cs []Term
+		for k := 0; k <= 2*searchMaxLen+2; k++ {
+			ki := IntLit(int64(k))
+			cs = append(cs, Implies(Cmp("<", ki, la), Eq(Select(arr, ki), x.W.SeqAt(a, ki))))
+			cs = append(cs, Implies(And(Cmp(">=", ki, la), Cmp("<", ki, Arith("+", la, lb))), Eq(Select(arr, ki), x.W.SeqAt(b, Arith("-", ki, la)))))
+		}
+		x.W.AddFact(env.pc, And(cs...))
+		r := x.W.MkSeq(a.Sort, arr, IntLit(0), Arith("+", la, lb))
+		r.GoT = a.GoT
+		return r
+	}
 	c := x.W.Fresh("cat", a.Sort)
 	c.GoT = a.GoT
 	x.W.Facts = append(x.W.Facts, Eq(c, x.W.MkSeq(a.Sort, arr, IntLit(0), Arith("+", la, lb))).S)
@@ -700,7 +712,7 @@ func (x *Exec) evalSlice(e *ast.SliceExpr, env *Env) Term {
 // sliceFacts names a slice value and relates its elements to those of the sliced sequence at the level of
 // element access: at(S,k) == at(X, lo+k) (true by definition of the encoding; stated for E-matching).
 func (x *Exec) sliceFacts(r, base, lo Term) Term {
-	if x.termMode || x.noFacts > 0 {
+	if x.termMode || x.noFacts > 0 || x.unroll > 0 {
 		return r
 	}
 	c := x.W.Fresh("slc", r.Sort)
